@@ -1236,3 +1236,94 @@ def ord5(ctx) -> List[Ob]:
                 if writers:
                     out.append(bad("ORD-5", "<module>", f"module-level mutable {name}", f"{m.relpath}:{A.lineno(val)}", f"module-level container {name} is mutated by {sorted(set(writers))}: state carried from one call to the next"))
     return out
+
+
+# ------------------------------------------------------------------ ORD-6
+
+_MUTATORS = {"append", "extend", "insert", "pop", "popleft", "appendleft", "remove", "clear", "update", "add", "discard",
+             "setdefault", "popitem", "sort", "reverse", "difference_update", "intersection_update"}
+
+
+def _self_attr(e: ast.AST, selfn: str, alias: Dict[str, str]) -> Optional[str]:
+    """attribute of the instance that the expression denotes (directly or through a local alias)"""
+    while isinstance(e, ast.Subscript):
+        e = e.value
+    if isinstance(e, ast.Attribute) and isinstance(e.value, ast.Name) and e.value.id == selfn:
+        return e.attr
+    if isinstance(e, ast.Name) and e.id in alias:
+        return alias[e.id]
+    return None
+
+
+@rule("ORD-6", 1, "no answer depends on what an earlier call left behind on the object: a method does not branch on an instance attribute that the same method writes (memo / run-once flags), except the audited generators and counters")
+def ord6(ctx) -> List[Ob]:
+    out: List[Ob] = []
+    for c in ctx.prog.all_classes():
+        for mname, m in sorted(c.methods.items()):
+            if mname in ("__init__", "__post_init__", "__new__") or not m.params or m.is_static:
+                continue
+            selfn = m.params[0].arg
+            alias: Dict[str, str] = {}
+            for n in A.walk_no_nested(m.node):
+                if isinstance(n, (ast.Assign, ast.AnnAssign)) and n.value is not None:
+                    tg = n.targets[0] if isinstance(n, ast.Assign) else n.target
+                    if isinstance(tg, ast.Name):
+                        a = _self_attr(n.value, selfn, {}) if isinstance(n.value, (ast.Attribute, ast.Subscript)) else None
+                        if a is not None and isinstance(n.value, ast.Attribute):
+                            alias[tg.id] = a
+            writes: Dict[str, ast.AST] = {}
+            for n in A.walk_no_nested(m.node):
+                tgts: List[ast.AST] = []
+                if isinstance(n, ast.Assign):
+                    tgts = list(n.targets)
+                elif isinstance(n, (ast.AugAssign, ast.AnnAssign)):
+                    tgts = [n.target]
+                elif isinstance(n, ast.Delete):
+                    tgts = list(n.targets)
+                for t in tgts:
+                    for x in (t.elts if isinstance(t, (ast.Tuple, ast.List)) else [t]):
+                        if isinstance(x, ast.Name):
+                            continue  # re-binding a local alias does not touch the object
+                        a = _self_attr(x, selfn, alias)
+                        if a is not None:
+                            writes.setdefault(a, n)
+                if isinstance(n, ast.Call):
+                    if isinstance(n.func, ast.Attribute) and n.func.attr in _MUTATORS:
+                        a = _self_attr(n.func.value, selfn, alias)
+                        if a is not None:
+                            writes.setdefault(a, n)
+                    if (A.dotted(n.func) or "") == "object.__setattr__" and len(n.args) >= 2 and isinstance(n.args[0], ast.Name) and n.args[0].id == selfn and isinstance(n.args[1], ast.Constant):
+                        writes.setdefault(str(n.args[1].value), n)
+            if not writes:
+                continue
+            tests: List[ast.AST] = []
+            for n in A.walk_no_nested(m.node):
+                if isinstance(n, (ast.If, ast.While, ast.IfExp, ast.Assert)):
+                    tests.append(n.test)
+                elif isinstance(n, ast.comprehension):
+                    tests.extend(n.ifs)
+                elif isinstance(n, ast.BoolOp):
+                    tests.extend(n.values[:-1])
+            # a read through a local alias counts only when the object is also written through an alias or
+            # in place (a shared mutable); `n = self.counter; ...; if x == n` reads a snapshot of an immutable
+            inplace = set()
+            for a_, wn in writes.items():
+                if isinstance(wn, ast.Call) or any(isinstance(t_, ast.Subscript) for t_ in (getattr(wn, "targets", None) or [getattr(wn, "target", None)]) if t_ is not None):
+                    inplace.add(a_)
+            cond_reads: Dict[str, ast.AST] = {}
+            for t in tests:
+                for x in ast.walk(t):
+                    if isinstance(x, ast.Attribute):
+                        a = _self_attr(x, selfn, {})
+                    elif isinstance(x, ast.Name) and x.id in alias and alias[x.id] in inplace:
+                        a = alias[x.id]
+                    else:
+                        a = None
+                    if a is not None and a in writes:
+                        cond_reads.setdefault(a, t)
+            for a in sorted(cond_reads):
+                key = f"{c.name}.{mname}: branches on and writes self.{a}"
+                out.append(bad("ORD-6", m.qualname, key, ctx.where(m, cond_reads[a]),
+                               f"{m.qualname} tests self.{a} ('{A.unparse(cond_reads[a])[:50]}') and also writes it (line {A.lineno(writes[a])}): what the method answers depends on what an earlier call left on the object - a remembered result is returned although the graph / input changed, or a step is skipped the second time"))
+    out.append(ok("ORD-6", "<library>", "methods scanned", "numba_scfg", f"{sum(len(c.methods) for c in ctx.prog.all_classes())} methods", nontrivial=False))
+    return out
